@@ -202,7 +202,13 @@ func NewWorld() *World {
 
 // Exec runs the history on the implementation and returns the observations.
 func (w *World) Exec(h History) (obs []Obs) {
-	for _, op := range h {
+	for i, op := range h {
+		if op.Kind == "render" || op.Kind == "rcode" || op.Kind == "rplain" || op.Kind == "save" {
+			i, kind := i, op.Kind
+			setInFlightLazy(func() string {
+				return fmt.Sprintf("operation %d (%s) of the history %s", i, kind, truncated(h.Sexp(), 4000))
+			})
+		}
 		f := w.Files[op.F]
 		switch op.Kind {
 		case "newfile":
@@ -561,4 +567,11 @@ func (o Obs) String() string {
 		return fmt.Sprintf("%s(%s)", o.Kind, o.Out)
 	}
 	return fmt.Sprintf("%s(%s)", o.Kind, o.Msg)
+}
+
+func truncated(s string, n int) string {
+	if len(s) > n {
+		return s[:n] + "..."
+	}
+	return s
 }
